@@ -281,18 +281,36 @@ class Tr:
             # guard: if cond: raise
             if len(s.body) == 1 and isinstance(s.body[0], ast.Raise) and not s.orelse:
                 return f"(if {c} then Raise else {self.block(rest)})"
-            if any(isinstance(x, (ast.Return, ast.Raise)) for x in s.body + s.orelse):
+            if self.contains_return(s.body) or self.contains_return(s.orelse):
                 saved = dict(self.env)
-                a = self.block(s.body + ([] if isinstance(s.body[-1], (ast.Return, ast.Raise)) else rest))
+                a = self.block(s.body + ([] if self.always_returns(s.body) else rest))
                 self.env = dict(saved)
                 orelse = s.orelse if s.orelse else []
-                b = self.block(orelse + ([] if orelse and isinstance(orelse[-1], (ast.Return, ast.Raise)) else rest))
+                b = self.block(orelse + ([] if self.always_returns(orelse) else rest))
                 self.env = saved
                 return f"(if {c} then {a} else {b})"
             return f"({self.if_let(s)}{self.block(rest)})"
         lets = self.simple_stmt(s)
         txt = "".join(f"let {n} := {v} in\n  " for n, v in lets)
         return f"({txt}{self.block(rest)})"
+
+    def contains_return(self, stmts):
+        for st in stmts:
+            if isinstance(st, (ast.Return, ast.Raise)):
+                return True
+            if isinstance(st, ast.If) and (self.contains_return(st.body) or self.contains_return(st.orelse)):
+                return True
+        return False
+
+    def always_returns(self, stmts):
+        if not stmts:
+            return False
+        last = stmts[-1]
+        if isinstance(last, (ast.Return, ast.Raise)):
+            return True
+        if isinstance(last, ast.If):
+            return self.always_returns(last.body) and self.always_returns(last.orelse)
+        return False
 
     def special_stmt(self, s):
         """hook for per-function statement shapes; return None if not special, '' to skip, or let-text"""
